@@ -101,6 +101,10 @@ def assigned_names(stmts):
     return names
 
 
+_READONLY_METHODS = frozenset({"get", "keys", "values", "items", "copy", "index", "count", "startswith", "endswith", "split", "rsplit", "join",
+                              "format", "encode", "decode", "strip", "lstrip", "rstrip", "lower", "upper", "isdigit", "is_set", "issubset", "issuperset"})
+
+
 def mutated_roots(stmts):
     """names whose value may be mutated in place: x.m(...), x[...] = , x.f = , x op= (roots of the place)"""
     roots = set()
@@ -416,9 +420,12 @@ class Interp:
     def _closure_facts(self, val, alloc):
         so = val.sort
         if isinstance(so, S.TRef):
+            # (A-TYPES: what a declared field holds is an object of the declared class)
             return [([], z3.Select(alloc, val.t))]
         if isinstance(so, S.TOpt) and isinstance(so.inner, S.TRef):
-            return [([], z3.Implies(z3.Not(val.terms[0]), z3.Select(alloc, so.payload(val).t)))]
+            p = so.payload(val)
+            ok = z3.Select(alloc, p.t)
+            return [([], z3.Implies(z3.Not(val.terms[0]), ok))]
         if isinstance(so, S.TList):
             i = z3.Int(S.fresh_name("hci"))
             inner = self._closure_facts(so.at(val, i), alloc)
@@ -529,12 +536,25 @@ class Interp:
         """bring two values to a common sort for ==, ite, arithmetic"""
         if a.sort == b.sort:
             return a, b
+        # T | Optional[T]  ->  Optional[T]  (never unwrap the optional side: that would assume it is not None)
+        if isinstance(a.sort, S.TOpt) != isinstance(b.sort, S.TOpt) and TNone not in (a.sort, b.sort):
+            o, x = (a, b) if isinstance(a.sort, S.TOpt) else (b, a)
+            try:
+                x2 = self.coerce(x, o.sort)
+                return (o, x2) if o is a else (x2, o)
+            except OutOfSubset:
+                pass
         for x, y, flip in ((a, b, False), (b, a, True)):
             try:
                 y2 = self.coerce(y, x.sort)
                 return (x, y2) if not flip else (y2, x)
             except OutOfSubset:
                 pass
+        # None | T  ->  Optional[T]
+        for x, y in ((a, b), (b, a)):
+            if x.sort is TNone and not isinstance(y.sort, S.TOpt):
+                so = S.TOpt(y.sort)
+                return self.coerce(a, so), self.coerce(b, so)
         raise OutOfSubset(f"cannot unify {a.sort} and {b.sort}")
 
     def truthy(self, v):
@@ -660,9 +680,14 @@ class Interp:
             self.old_st = self.st.copy()
             # preconditions
             self.assume_heap_closure()
+            gnames = {g for g, _ in fs.ghosts}
+            late = [r for r in fs.requires if any(isinstance(x, ast.Name) and x.id in gnames for x in ast.walk(r))]
             for r in fs.requires:
-                self.st.assume(self.ev_spec(r))
+                if r not in late:
+                    self.st.assume(self.ev_spec(r))
             self.bind_ghosts(fs, self.st.locals)
+            for r in late:  # preconditions phrased over ghost names
+                self.st.assume(self.ev_spec(r))
             self.old_st = self.st.copy()
             self.entry_alloc = self.st.alloc
             if not self.feasible():
@@ -1097,6 +1122,11 @@ class Interp:
             self.oblige(f"loopframe_init#{k}:{key[0]}.{key[1]}", mk())
         self.havoc(mods, s.body, tag)
         self.havoc_alloc(tag)
+        for nme in sorted(mods):
+            hv = self.st.locals.get(nme)
+            if isinstance(hv, V) and (isinstance(hv.sort, S.TRef) or (isinstance(hv.sort, S.TOpt) and isinstance(hv.sort.inner, S.TRef))):
+                # A-TYPES: a rebound reference-typed local still holds an allocated object of its declared class
+                self.assume_wf_input(hv)
         for key, mk in frame_invs:
             self.st.assume(mk())
         for inv in invs:
@@ -1113,6 +1143,8 @@ class Interp:
                 if not self.feasible():
                     raise PathEnd()
                 item = seqinfo.item(self.st.locals[idx_name])
+                if isinstance(item, V) and not self.spec:
+                    self.note_read(item)  # an element read out of a container in the heap: allocated, of its declared class
                 self.assign(s.target, item)
                 nxt = seqinfo.advance(self.st.locals[idx_name], item)
             else:
@@ -1121,6 +1153,7 @@ class Interp:
                 if not self.feasible():
                     raise PathEnd()
             dec0 = self.ev_spec_val(dec_expr) if dec_expr is not None else None
+            self.run_hints(f"loop{k}:body")
             try:
                 self.exec_block(s.body)
             except ContinueSig:
@@ -1210,13 +1243,16 @@ class Interp:
                             fields.add(t.attr)
                 if isinstance(n, ast.Call) and isinstance(n.func, ast.Attribute):
                     # x.f.append(...)  mutates field f ; x.m(...) may assign per contract
-                    if isinstance(n.func.value, ast.Attribute):
-                        fields.add(n.func.value.attr)
-                    t = n.func.value
-                    while isinstance(t, ast.Subscript):
-                        t = t.value
-                    if isinstance(t, ast.Attribute):
-                        fields.add(t.attr)
+                    # (reading methods of the builtin containers and of str leave a container-valued field as it is; a method of a
+                    # referenced object never changes the field that holds the reference — its effects come from its contract)
+                    if n.func.attr not in _READONLY_METHODS:
+                        if isinstance(n.func.value, ast.Attribute):
+                            fields.add(n.func.value.attr)
+                        t = n.func.value
+                        while isinstance(t, ast.Subscript):
+                            t = t.value
+                        if isinstance(t, ast.Attribute):
+                            fields.add(t.attr)
                     called.append(n.func.attr)
                 if isinstance(n, ast.Call) and isinstance(n.func, ast.Name):
                     called.append(n.func.id)
@@ -1533,6 +1569,10 @@ class Interp:
         if isinstance(op, ast.NotEq):
             return z3.Not(self.eq(a, b))
         if isinstance(op, (ast.Is, ast.IsNot)):
+            for x in (a, b):
+                if isinstance(x, ModuleObj):
+                    # an unbound name falls back to "some module"; comparing it with None would silently be a constant
+                    raise OutOfSubset(f"name {x.dotted} is not bound here (`is` on an unknown global)")
             if isinstance(b, V) and b.sort is TNone:
                 r = self.is_none(a) if isinstance(a, V) else z3.BoolVal(False)
             elif isinstance(a, V) and a.sort is TNone:
@@ -1959,9 +1999,15 @@ class Interp:
         self.bound = {}
         try:
             self.st.locals = env
+            gnames = {g for g, _ in fs.ghosts}
+            late = [k for k, r in enumerate(fs.requires) if any(isinstance(x, ast.Name) and x.id in gnames for x in ast.walk(r))]
             for k, r in enumerate(fs.requires):
-                self.oblige(f"pre@{fs.name}#{k}@{site}", self.ev_spec(r), {"clause": ast.unparse(r)})
+                if k not in late:
+                    self.oblige(f"pre@{fs.name}#{k}@{site}", self.ev_spec(r), {"clause": ast.unparse(r)})
             self.bind_ghosts(fs, env)
+            for k in late:  # preconditions phrased over ghost names
+                r = fs.requires[k]
+                self.oblige(f"pre@{fs.name}#{k}@{site}", self.ev_spec(r), {"clause": ast.unparse(r)})
             for gname, _ in fs.ghosts:
                 self.call_ghosts[(fs.name, site, gname)] = env[gname]
             pre_st = self.st.copy()
@@ -2002,6 +2048,10 @@ class Interp:
             self.st.locals = env2
             was_feasible = self.feasible()
             for e in fs.ensures:
+                if _mentions_internal_calls(e):
+                    # a clause about the callee's own internal calls (result_of / ghost_of): an obligation of the callee, it says
+                    # nothing a caller can use
+                    continue
                 self.st.assume(self.ev_spec(e))
             if was_feasible and not self.feasible() and not _never_returns(fs):
                 # the callee's postcondition contradicts what is known at this call site: everything after the call would be
@@ -2224,6 +2274,10 @@ def _is_raised_identity(c):
 
 def _never_returns(fs):
     return any(isinstance(e, ast.Constant) and e.value is False for e in fs.ensures)
+
+
+def _mentions_internal_calls(e):
+    return any(isinstance(x, ast.Call) and isinstance(x.func, ast.Name) and x.func.id in ("result_of", "ghost_of") for x in ast.walk(e))
 
 
 def _mentions_fresh(fs):
